@@ -29,10 +29,13 @@ import (
 func Normalize(dict map[string]any, env types.Mapping) (map[string]any, error) {
 	normalizeNetworks(dict)
 
-	if d, ok := dict["services"]; ok {
-		services := d.(map[string]any)
+	// values of an unexpected kind (schema validation was skipped) are left as they are: decoding the model reports them
+	if services, ok := dict["services"].(map[string]any); ok {
 		for name, s := range services {
-			service := s.(map[string]any)
+			service, ok := s.(map[string]any)
+			if !ok {
+				continue
+			}
 
 			if service["pull_policy"] == types.PullPolicyIfNotPresent {
 				service["pull_policy"] = types.PullPolicyMissing
@@ -43,8 +46,7 @@ func Normalize(dict map[string]any, env types.Mapping) (map[string]any, error) {
 				return v, ok
 			}
 
-			if b, ok := service["build"]; ok {
-				build := b.(map[string]any)
+			if build, ok := service["build"].(map[string]any); ok {
 				if build["context"] == nil {
 					build["context"] = "."
 				}
@@ -65,14 +67,18 @@ func Normalize(dict map[string]any, env types.Mapping) (map[string]any, error) {
 
 			var dependsOn map[string]any
 			if d, ok := service["depends_on"]; ok {
-				dependsOn = d.(map[string]any)
+				if dependsOn, ok = d.(map[string]any); !ok {
+					continue
+				}
 			} else {
 				dependsOn = map[string]any{}
 			}
-			if l, ok := service["links"]; ok {
-				links := l.([]any)
+			if links, ok := service["links"].([]any); ok {
 				for _, e := range links {
-					link := e.(string)
+					link, ok := e.(string)
+					if !ok {
+						continue
+					}
 					parts := strings.Split(link, ":")
 					if len(parts) == 2 {
 						link = parts[0]
@@ -103,22 +109,24 @@ func Normalize(dict map[string]any, env types.Mapping) (map[string]any, error) {
 				}
 			}
 
-			if v, ok := service["volumes"]; ok {
-				volumes := v.([]any)
+			if volumes, ok := service["volumes"].([]any); ok {
 				for i, volume := range volumes {
-					vol := volume.(map[string]any)
-					target := vol["target"].(string)
-					vol["target"] = path.Clean(target)
+					vol, ok := volume.(map[string]any)
+					if !ok {
+						continue
+					}
+					if target, ok := vol["target"].(string); ok {
+						vol["target"] = path.Clean(target)
+					}
 					volumes[i] = vol
 				}
 				service["volumes"] = volumes
 			}
 
-			if n, ok := service["volumes_from"]; ok {
-				volumesFrom := n.([]any)
+			if volumesFrom, ok := service["volumes_from"].([]any); ok {
 				for _, v := range volumesFrom {
-					vol := v.(string)
-					if !strings.HasPrefix(vol, types.ContainerPrefix) {
+					vol, ok := v.(string)
+					if ok && !strings.HasPrefix(vol, types.ContainerPrefix) {
 						spec := strings.Split(vol, ":")
 						if _, ok := dependsOn[spec[0]]; !ok {
 							dependsOn[spec[0]] = map[string]any{
@@ -146,7 +154,9 @@ func Normalize(dict map[string]any, env types.Mapping) (map[string]any, error) {
 func normalizeNetworks(dict map[string]any) {
 	var networks map[string]any
 	if n, ok := dict["networks"]; ok {
-		networks = n.(map[string]any)
+		if networks, ok = n.(map[string]any); !ok {
+			return
+		}
 	} else {
 		networks = map[string]any{}
 	}
@@ -154,10 +164,12 @@ func normalizeNetworks(dict map[string]any) {
 	// implicit `default` network must be introduced only if actually used by some service
 	usesDefaultNetwork := false
 
-	if s, ok := dict["services"]; ok {
-		services := s.(map[string]any)
+	if services, ok := dict["services"].(map[string]any); ok {
 		for name, se := range services {
-			service := se.(map[string]any)
+			service, ok := se.(map[string]any)
+			if !ok {
+				continue
+			}
 			if _, ok := service["network_mode"]; ok {
 				continue
 			}
@@ -166,7 +178,10 @@ func normalizeNetworks(dict map[string]any) {
 				service["networks"] = map[string]any{"default": nil}
 				usesDefaultNetwork = true
 			} else {
-				net := n.(map[string]any)
+				net, ok := n.(map[string]any)
+				if !ok {
+					continue
+				}
 				if len(net) == 0 {
 					// networks section declared but empty (corner case)
 					service["networks"] = map[string]any{"default": nil}
@@ -237,11 +252,16 @@ func setNameFromKey(dict map[string]any) {
 		if !ok {
 			continue
 		}
-		toplevel := a.(map[string]any)
+		toplevel, ok := a.(map[string]any)
+		if !ok {
+			continue
+		}
 		for key, r := range toplevel {
 			var resource map[string]any
 			if r != nil {
-				resource = r.(map[string]any)
+				if resource, ok = r.(map[string]any); !ok {
+					continue
+				}
 			} else {
 				resource = map[string]any{}
 			}
